@@ -110,8 +110,11 @@ class MotionGen(object):
         self.useG92 = (foc == "frames" and rng.random() < 0.6) or rng.random() < 0.15
         self.retKind = rng.choice(["e", "e", "f", "n"]) if foc != "extrusion" \
             else rng.choice(["e", "e", "f"])
-        self.useAt = foc == "at" or rng.random() < 0.3
-        self.useArcs = foc == "arcs" or rng.random() < 0.15
+        self.useAt = foc == "at" or rng.random() < 0.3 or (foc == "arcs" and rng.random() < 0.5)
+        self.useArcs = foc == "arcs" or rng.random() < 0.15 or (foc == "at" and rng.random() < 0.5)
+        # retract-while-travelling (Slic3r wipe): moves that also retract.  Outside the quantifier
+        # of C04 / C05 (the contract notices), but C01, C03, C06 ... still apply
+        self.useWipe = rng.random() < (0.3 if foc in ("motion", "deferred", "at") else 0.1)
         self.lateRegions = rng.random() < 0.3 and not self.cleanMode
         self.useDeferred = foc == "deferred" or rng.random() < 0.25
         self.outOfScope = rng.random() < 0.08
@@ -357,6 +360,13 @@ class MotionGen(object):
                 words.append(wtxt)
                 gh.e += actual
                 code = "G1"
+        elif self.useWipe and gh.ret == 0 and gh.eabs and rng.random() < 0.25:
+            wtxt, actual = self.eword(-self.retAmount)
+            if wtxt:
+                words.append(wtxt)
+                gh.e += actual
+                gh.ret = -actual
+                code = "G1"
         elif self.outOfScope and rng.random() < 0.2:
             wtxt, actual = self.eword(rng.choice([-25, 10]))
             if wtxt:
@@ -478,6 +488,20 @@ class MotionGen(object):
         streaming = rng.random() < 0.08
         self.steps.append(("at", cmd, par, streaming))
 
+    def act_off_on(self):
+        """Exclusion switched off, some motion (arcs, relative or single-axis moves), on again."""
+        rng = self.rng
+        off, on = (("Excl", "stop"), ("Excl", "go")) if self.cfg["at"] else \
+            (("ExcludeRegion", "disable"), ("ExcludeRegion", "enable"))
+        self.steps.append(("at", off[0], off[1], False))
+        for _ in range(rng.randint(1, 3)):
+            if self.useArcs and rng.random() < 0.6:
+                self.act_arc()
+            else:
+                self.act_move()
+        self.steps.append(("at", on[0], on[1], False))
+        self.act_move()
+
     def act_deferred(self):
         rng = self.rng
         codes = list(self.cfg["xg"].keys()) or ["M204"]
@@ -596,6 +620,7 @@ class MotionGen(object):
             "at": 1.5 if self.useAt else 0, "deferred": 2.5 if self.useDeferred else 0.1,
             "other": 1.0, "arc": 2.5 if self.useArcs else 0, "addr": 0.0, "home": 0.15,
             "escope": 0.3 if self.outOfScope else 0.0,
+            "offon": 1.0 if self.useAt else 0.0,
         }
         if self.focus == "extrusion":
             weights["retract"] = 6
@@ -619,6 +644,8 @@ class MotionGen(object):
                 self.act_mode()
             elif name == "at":
                 self.act_at()
+            elif name == "offon":
+                self.act_off_on()
             elif name == "deferred":
                 self.act_deferred()
             elif name == "other":
